@@ -68,6 +68,7 @@ CONSTANTS Keys,            \* keys usable in __getitem__ / __setitem__ paths
           MaxOps,          \* pipeline operations after attach
           SegContents,     \* contents for provide() on a SegmentedNode, already cut into segments
           SegRetry,        \* SegmentedNode.retry_times
+          MaxSegs,         \* the other side ends a segmented object after at most this many segments
           InitTrees,       \* initial trees: {[tree |-> ..., rprefix |-> ...]}
           Dev              \* named deviations modelled as coded
 
@@ -447,6 +448,7 @@ Deliver(ext, c, ok, fin) ==
            dn == e.fname \o ext
            pkt == [n |-> dn, c |-> c, s |-> "net", ok |-> ok, fbi |-> IF fin THEN Last(dn) ELSE NoComp] IN
          /\ (ext = <<>> \/ e.cbp) /\ dn # <<>>
+         /\ (e.seg.on /\ ~fin => e.seg.cur + 1 < MaxSegs)
          /\ IF ~Verdict(e.val, pkt)
             THEN res' = Raise("deliver", "ValidationFailure") /\ pend' = <<>> /\ sent' = <<>> /\ UNCHANGED caches
             ELSE LET od == OnData(caches, Finer(tree, e.m, dn), pkt) IN
@@ -710,11 +712,18 @@ W_LocalNeed == ~(res.op = "need" /\ res.k = "local" /\ res.c.k = "c")
 W_AttachPrefixLost == ~(phase = "run" /\ aprefix # <<>> /\ rprefix = <<>> /\ res.op = "interest" /\ res.k = "proc"
                         /\ ints[1].pos = 0)
 \* all witnesses in one run: WCollect (an invariant that always holds) notes in TLC registers which witness
-\* situations were seen, the POSTCONDITION WPost prints the ones that were not (workers = 1)
+\* situations and which actions were seen, the POSTCONDITION WPost prints the ones that were not (workers = 1)
 WNames == <<"W_PatternTaken", "W_ExactOverPattern", "W_GreedyNotLongest", "W_MatchStopsEarly", "W_RootPrefixError", "W_NodeExists", "W_VarRenamed", "W_PolicyShadowed", "W_FinerPartial", "W_RegStopsAtRefusal", "W_RegCachePattern", "W_RegNothing", "W_NeedHit", "W_NeedHitLonger", "W_LocalOnlyRaise", "W_EmptySearchRaise", "W_Decrypted", "W_WrongKey", "W_ValidationFailure", "W_PolicyValidatorAcceptsBad", "W_InterestHit", "W_InterestDropped", "W_InterestDecrypted", "W_SignedInterestSent", "W_TwoCaches", "W_LocalOnlyCached", "W_SegReassembled", "W_SegFromCache", "W_SegRetry", "W_SegTimeout", "W_SegInterestZero", "W_LocalNeed", "W_AttachPrefixLost">>
 WVals == <<W_PatternTaken, W_ExactOverPattern, W_GreedyNotLongest, W_MatchStopsEarly, W_RootPrefixError, W_NodeExists, W_VarRenamed, W_PolicyShadowed, W_FinerPartial, W_RegStopsAtRefusal, W_RegCachePattern, W_RegNothing, W_NeedHit, W_NeedHitLonger, W_LocalOnlyRaise, W_EmptySearchRaise, W_Decrypted, W_WrongKey, W_ValidationFailure, W_PolicyValidatorAcceptsBad, W_InterestHit, W_InterestDropped, W_InterestDecrypted, W_SignedInterestSent, W_TwoCaches, W_LocalOnlyCached, W_SegReassembled, W_SegFromCache, W_SegRetry, W_SegTimeout, W_SegInterestZero, W_LocalNeed, W_AttachPrefixLost>>
+ActSeq == <<"GetItem", "SetItem", "SetPolicy", "SetPolicyWrong", "SetPrefix", "QMatch", "QFinerMatch", "QExist",
+            "QGetPolicy", "Attach", "Provide", "ProvideSeg", "Need", "Deliver", "Fail", "Interest">>
 WBase == 2000000
+ABase == 2001000
 ASSUME \A i \in 1..Len(WNames) : TLCSet(WBase + i, FALSE)
-WCollect == LET w == WVals IN \A i \in 1..Len(WNames) : w[i] \/ TLCSet(WBase + i, TRUE)
-WPost == \A i \in 1..Len(WNames) : TLCGet(WBase + i) \/ PrintT(<<"UNREACHED", WNames[i]>>)
+ASSUME \A i \in 1..Len(ActSeq) : TLCSet(ABase + i, FALSE)
+WCollect == LET w == WVals IN
+            /\ \A i \in 1..Len(WNames) : w[i] \/ TLCSet(WBase + i, TRUE)
+            /\ \A j \in 1..Len(ActSeq) : call[1] # ActSeq[j] \/ TLCSet(ABase + j, TRUE)
+WPost == /\ \A i \in 1..Len(WNames) : TLCGet(WBase + i) \/ PrintT(<<"UNREACHED", WNames[i]>>)
+         /\ \A j \in 1..Len(ActSeq) : TLCGet(ABase + j) \/ PrintT(<<"UNTAKEN", ActSeq[j]>>)
 =============================================================================
